@@ -5,7 +5,8 @@ from vlib.runner import Failure
 
 PID = "C05"
 LEAN_MODULE = "NunVerif.Props.C05Atomic"
-THEOREMS = ["Nun.C05_full_sync_names_every_db", "Nun.C05_full_sync_names_every_key", "Nun.C05_finding_first_word_lost", "Nun.C05_live_format_is_exact", "Nun.C05_finding_strategy_not_sent",
+THEOREMS = ["Nun.C05_sync_formats", "Nun.C05_create_db_line_is_generated", "Nun.C05_set_line_is_generated", "Nun.C05_remove_line_is_generated", "Nun.C05_snapshot_line_is_generated", "Nun.C05_finding_no_version_field_in_the_burst",
+            "Nun.C05_full_sync_names_every_db", "Nun.C05_full_sync_names_every_key", "Nun.C05_finding_first_word_lost", "Nun.C05_live_format_is_exact", "Nun.C05_finding_strategy_not_sent",
             "Nun.C05_sync_is_one_critical_section", "Nun.C05_fanout_is_one_critical_section"]
 
 VALUES = ["x{v}", "two words {v}", "{v} leading number", "7", "-1 looks like a version"]
